@@ -54,6 +54,19 @@ fn oligo_cases(rng: &mut Rng, cases: &mut u64) -> Option<Vec<(String, String)>> 
             }
         }
     }
+    // the header flag only adds the column line, also when the input holds no record at all, on both writers
+    for counts in [false, true] {
+        let sc = Scratch::new("cli");
+        let inp = sc.path("in.fa"); let out = sc.path("out.txt");
+        std::fs::write(&inp, b"").unwrap();
+        let mut a = sv(&["comp", "oligo", "-i", &inp, "-o", &out, "-k", "3", "-H"]);
+        if counts { a.push("-c".into()); }
+        *cases += 1;
+        if let Err(e) = run_cli(&a) { return wit(&a, format!("input without records: {}", e)); }
+        let text = std::fs::read_to_string(&out).unwrap_or_default();
+        let want: Vec<String> = (0..pow4(3)).filter(|&x| is_canon(x, 3)).map(|x| text_of(x, 3)).collect();
+        if text != want.join(" ") + "\n" { return wit(&a, format!("input without records and -H: output is {:?}.., expected exactly the column line", &text[..text.len().min(40)])); }
+    }
     // out-of-range k is refused and writes nothing
     for k in ["2", "8", "0"] {
         let sc = Scratch::new("cli");
